@@ -240,7 +240,7 @@ mutual
       let r := renderItems cfg { st with skipBlank := false, listTight := isTight } ordered start bullet 0 items
       (r.1, { r.2 with listTight := st.listTight, pfx := r.2.snd })
     | .item bs =>
-      let sep : Str := if st.listTight then [] else if st.suppress then [] else strip st.snd ++ ['\n']
+      let sep : Str := if st.listTight then [] else if st.suppress then [] else rstrip st.snd ++ ['\n']
       -- `if not tight: if suppress: suppress = False` — i.e. the flag survives only in a tight list
       let st1 := { st with suppress := st.suppress && st.listTight }
       let r := renderBlocks cfg st1 bs
@@ -254,7 +254,9 @@ mutual
       -- the header line uses up the first-line prefix
       let inner := { st with skipBlank := false, pfx := st.snd ++ "> ".toList, snd := st.snd ++ "> ".toList }
       let r := renderBlocks cfg inner bs
-      (st.pfx ++ "> [!".toList ++ ty ++ "]\n".toList ++ stripTrailingBlank r.1 inner.snd ++ ['\n'],
+      let body := stripTrailingBlank r.1 inner.snd
+      -- an alert with nothing in it is just its header line
+      (st.pfx ++ "> [!".toList ++ ty ++ "]\n".toList ++ (if body.isEmpty then [] else body ++ ['\n']),
        { r.2 with pfx := st.snd, snd := st.snd, suppress := false, skipBlank := false })
     | .fenced lang extra content fch flen =>
       (renderCodeLines st content lang extra true fch flen,
